@@ -20,7 +20,7 @@
    validation of the real text. *)
 From Coq Require Import String NArith Bool List Permutation Sorted.
 From Verif Require Import Model.FrrSpec Proofs.FrrSortP Proofs.FrrP Proofs.FrrListsP Proofs.FrrShapeP Proofs.FrrSemP
-     Proofs.FrrOutP Proofs.FrrExactP Proofs.FrrWfP Proofs.FrrAdvPermP.
+     Proofs.FrrOutP Proofs.FrrExactP Proofs.FrrWfP Proofs.FrrAdvPermP Model.FrrMgr Proofs.FrrMgrP.
 Import ListNotations.
 Open Scope string_scope.
 
@@ -67,7 +67,7 @@ Proof. exact lists_defined_bool. Qed.
    prefix in the same family ... *)
 Theorem C14_property_lists_subset_allowed : forall S c a nm sq pm q,
   render S = Some c -> In (IPl a nm sq pm (Some q)) (items c) ->
-  exists rs n sq', create_config S = Some rs /\ In n (all_nbrs rs) /\ In (IPl a nm 0 pm (Some q)) (block n) /\
+  exists rs n sq', create_config S = Some rs /\ In n (all_nbrs rs) /\ In (IPl a nm 0 pm (Some q)) (FrrSemP.block n) /\
                    In (IPl a (pl_allowed (nc_s n)) sq' true (Some q)) (items c).
 Proof. exact subset_allowed. Qed.
 
@@ -114,6 +114,69 @@ Proof. exact route_ok_b_sound. Qed.
 Theorem C14_merged_advertisements_shape : forall f advs n, mk_neighbor f advs = Some n ->
   ssorted atext (nc_advs n) /\ forall y, In y (nc_advs n) -> supp (map advc_of advs) y.
 Proof. exact mk_neighbor_shape. Qed.
+
+(* ===== address families (ip / ipv6 prefix-list namespaces) ===== *)
+
+(* a prefix-list line is written under the keyword of the family of its prefix *)
+Theorem C14_lines_family : forall S c a nm sq pm q,
+  render S = Some c -> In (IPl a nm sq pm (Some q)) (items c) -> pfx_afi q = a.
+Proof. exact lines_family. Qed.
+
+(* every `match ip|ipv6 address prefix-list L` of the configuration refers to a list defined under that
+   keyword all of whose prefixes have that family *)
+Theorem C14_match_family : forall S c nm sq pm m st nx a name, render S = Some c ->
+  In (IRm nm sq pm m st nx) (items c) -> In (a, name) m ->
+  pl_lines c a name <> [] /\ forall pm' q, In (pm', Some q) (pl_lines c a name) -> pfx_afi q = a.
+Proof. exact match_family. Qed.
+
+(* ===== the session manager (Model/FrrMgr.v): histories ===== *)
+(* [mrun gen_frr true minit None ops]: final state, per-operation "no error", last configuration handed to the
+   reload channel.  [hist_ok]: NewSession only for names not in the table, one session per neighbor and router. *)
+
+(* after ANY history the last configuration handed on is the one generated from the final state (or
+   nothing was ever handed on and the state is initial), and the final state is renderable *)
+Theorem C14_mgr_history_in_sync : forall ops st oks last,
+  hist_ok gen_frr true good_frr minit ops -> mrun gen_frr true minit None ops = (st, oks, last) ->
+  cfg_of gen_frr st <> None /\ ((last = None /\ st = minit) \/ last = cfg_of gen_frr st).
+Proof. exact frr_history_in_sync. Qed.
+
+(* the configuration of a state does not depend on the order of the session table (Go map iteration) *)
+Theorem C14_mgr_order_independent : forall (l l' : list (string * session)) b e,
+  Permutation l l' -> wf_perm (map snd l) -> gen_frr (map snd l) b e = gen_frr (map snd l') b e.
+Proof. exact frr_order_independent. Qed.
+
+(* deterministic function of the set of sessions: two histories with the same final requested state
+   (e.g. the second one a fresh manager given only that state) hand on the same configuration *)
+Theorem C14_mgr_history_independent : forall ops1 ops2 st1 st2 oks1 oks2 last1 last2,
+  hist_ok gen_frr true good_frr minit ops1 -> hist_ok gen_frr true good_frr minit ops2 ->
+  mrun gen_frr true minit None ops1 = (st1, oks1, last1) -> mrun gen_frr true minit None ops2 = (st2, oks2, last2) ->
+  Permutation (ms_sessions st1) (ms_sessions st2) -> ms_bfd st1 = ms_bfd st2 -> ms_extra st1 = ms_extra st2 ->
+  wf_perm (sessions_of st1) -> last1 <> None -> last2 <> None -> last1 = last2.
+Proof. exact frr_history_independent. Qed.
+
+(* a refused Set leaves the state unchanged and hands nothing on; too many communities / unknown name are refused *)
+Theorem C14_mgr_set_refused : forall st p advs st' c,
+  mstep gen_frr true st (MSet p advs) = (st', false, c) -> st' = st /\ c = None.
+Proof. exact (set_refused gen_frr true). Qed.
+
+Theorem C14_mgr_set_invalid_refused : forall st p advs,
+  forallb valid_adv advs = false -> mstep gen_frr true st (MSet p advs) = (st, false, None).
+Proof. exact (set_invalid_refused gen_frr true). Qed.
+
+(* an accepted operation hands on exactly the configuration generated from the new state *)
+Theorem C14_mgr_step_ok : forall st o st' c, mstep gen_frr true st o = (st', true, c) ->
+  (c = cfg_of gen_frr st' /\ c <> None) \/ (true = false /\ exists e, o = MExtra e /\ st' = st /\ c = None).
+Proof. exact (step_ok_cfg gen_frr true). Qed.
+
+(* the session table always has distinct names, each entry under its own name *)
+Theorem C14_mgr_table_invariant : forall ops st last st' oks last',
+  kinv (ms_sessions st) -> mrun gen_frr true st last ops = (st', oks, last') -> kinv (ms_sessions st').
+Proof. exact (table_invariant gen_frr true). Qed.
+
+(* renderability = every session's own advertisement list merges (one local preference per prefix) *)
+Theorem C14_render_some_iff : forall S, wf_lite S ->
+  (render S <> None <-> forall s, In s S -> mk_neighbor s (s_advs s) <> None).
+Proof. intros S W. split; [apply render_all; assumption|apply render_some; assumption]. Qed.
 
 (* ===== further structure ===== *)
 
